@@ -109,14 +109,22 @@ def tables(draw):
     neg = zkey != "eff" and draw(st.integers(0, 5)) == 0
     if neg and zkey == "vdrop":
         rows = [[-v for v in r] for r in rows]
+    neg_axis = draw(st.integers(0, 7)) == 0
+    if neg_axis:
+        # the same table written with negative currents (a sink's point of view): the axis
+        # is still strictly increasing as written
+        ios = [-x for x in reversed(ios)]
+        rows = [list(reversed(r)) for r in rows]
+        if draw(st.booleans()):
+            vis = [-v for v in vis]
     fr = draw(st.lists(st.floats(0.02, 0.98), min_size=24, max_size=24))
-    return {"kind": kind, "par": par, "zkey": zkey, "ok": ok, "int_axes": ints < 3,
+    return {"neg_axis": neg_axis, "kind": kind, "par": par, "zkey": zkey, "ok": ok, "int_axes": ints < 3,
             "table": {"vi": vis, "io": ios, zkey: rows}, "fr": fr, "const": const}
 
 
 def queries(tab, fr):
     """(io, vi, class) query points."""
-    xs = [abs(x) for x in tab["io"]]
+    xs = sorted(abs(x) for x in tab["io"])
     ys = sorted(abs(y) for y in tab["vi"])
     out = []
     it = iter(fr * 4)
@@ -209,6 +217,8 @@ def body_direct(case, stats):
     stats.cls("2d" if nv > 1 else "1d")
     if case.get("int_axes"):
         stats.cls("integer_axis")
+    if case.get("neg_axis"):
+        stats.cls("negative_axis")
     if nv >= 2 and ni >= 3 and {"interior", "line", "outside-corner", "outside-edge"} <= seen:
         stats.nontriv(jhash(tab), sample={"kind": case["kind"], "par": case["par"],
                                           "table": tab})
@@ -297,7 +307,7 @@ def body_constant(case, stats):
     tab[zkey] = [[c for _ in r] for r in tab[zkey]]
     ys = sorted(abs(v) for v in tab["vi"])
     V = ys[0] * (0.5 + 1.5 * case["fr"][0]) if ys[0] > 0 else 1.0
-    I = abs(tab["io"][-1]) * (0.2 + 1.5 * case["fr"][1])
+    I = max(abs(v) for v in tab["io"]) * (0.2 + 1.5 * case["fr"][1])
     ct = dict(case)
     ct["table"] = tab
     sa = probe_spec(ct, V, I)
